@@ -286,6 +286,11 @@ def run_batch(ctx, kind, seed, muts, aux=(), label="", expect_err_on_truncate=Fa
             files = save_case(ctx, seed, muts[case]) if case < total else []
             if rec.outcome == "timeout":
                 ctx.inconclusive("watchdog in fault batch %s case %d" % (kind, case))
+            elif rec.outcome == "abort:cpu-stall" and ctx.variant == "memcheck":
+                # under valgrind (20-50x slower, no address-space limit so that huge reservations are really filled) the stall limit says
+                # nothing about the library: the CPU clause is decided by the native stages
+                stalls += 1
+                ctx.inconclusive("memcheck: a case exceeded the CPU stall limit under valgrind (%s); the CPU clause is decided natively" % entry)
             elif rec.outcome == "abort:cpu-stall":
                 stalls += 1
                 ctx.violation("cpu", dict(kind="cpu", entry=entry), dict(cpu_s=rec.get("cpu_s"), stall_limit_s=stall, note="case did not finish; worker killed on CPU time",
